@@ -667,6 +667,9 @@ def corr_whole(ctx, form, holes, survey):
              "ia": code_ia_flag(h["src"], h["info"]["start"], h["info"]["end"], h["info"]["name"]),
              "ip": h["flags"]["in_pred"] and h["cell"] != "choice_filter",
              "uc": h["cell"] == "choice_filter", "rp": False}
+        if h["cell"] not in TEXT_CELLS and h["cell"] != "choice_filter":
+            # bind / attribute cells: the whole cell is the regex subject, so the model computes the flags itself
+            q.update({"text": h["src"], "start": h["info"]["start"], "end": h["info"]["end"]})
         qs.append(q)
         hs.append(h)
     if not qs:
